@@ -499,7 +499,9 @@ fn loco_trace_case(ctx: &mut Ctx, r: &mut Rng, steps: usize) {
                     ctx.op("C01,C08,C09", "loco_solve", &format!("{} {} {} {}", tok_loco(&a2), f(req), f(dt), opt(&on, |x| b(*x))), &ans(r3, tok_loco));
                 }
                 l = post;
+                LocoTrait::step(&mut l);
                 trace.push((req, dt, on));
+                if soc_outside_window(&l) { ctx.count("pt.loco.trace_stopped_soc_outside_window"); break; }
             }
             Some(Err(_)) => { ctx.count("pt.loco.step_err"); }
             None => {
@@ -528,6 +530,18 @@ fn loco_trace_case(ctx: &mut Ctx, r: &mut Rng, steps: usize) {
     ctx.sample("pt.loco_trace", json!({"bel": bel, "accepted_steps": trace.len(), "first_steps": trace.iter().take(4).map(|t| json!([t.0, t.1, t.2])).collect::<Vec<_>>()}));
 }
 
+/// the battery left its SOC window (only possible outside the step-size domain H_dt): what
+/// follows is outside the properties' domain, the trace stops there
+fn soc_outside_window(l: &Locomotive) -> bool {
+    match &l.loco_type {
+        PowertrainType::BatteryElectricLoco(b) => {
+            let s = b.res.state;
+            s.soc < s.min_soc || s.soc > s.max_soc
+        }
+        _ => false,
+    }
+}
+
 fn is_bel(l: &Locomotive) -> bool { matches!(l.loco_type, PowertrainType::BatteryElectricLoco(_)) }
 
 fn oracle_consist_step(k: &mut Chk, pre: &Consist, post: &Consist, req: f64, dt: f64) {
@@ -541,6 +555,13 @@ fn oracle_consist_step(k: &mut Chk, pre: &Consist, post: &Consist, req: f64, dt:
         let rating = edrv_of(l).pwr_out_max.value;
         let om = l.state.pwr_out_max.value;
         if is_bel(l) { bel_max += om; }
+        if is_bel(l) && om < 0.0 {
+            // a battery unit whose derated discharge limit is below its auxiliary load publishes a
+            // NEGATIVE traction limit and is handed more than that (negative traction while the consist pushes, or zero)
+            k.req("C10", "bel_negative_traction_limit", false,
+                || format!("battery unit publishes pwr_out_max = {} W (< 0: discharge limit below aux load) and is assigned {} W while the consist is asked for {} W", om, p, req));
+            continue;
+        }
         k.req("C10", "share_within_unit_limit", *p <= om * (1.0 + 1e-9) + 1e-6 && *p >= -rating * (1.0 + 1e-9) - 1e-6,
             || format!("share {} published out_max {} drivetrain rating {}", p, om, rating));
         k.req("C10", "no_unit_opposes_consist", if req > 0.0 { *p >= -1e-6 } else if req < 0.0 { *p <= 1e-6 } else { p.abs() <= 1e-6 },
@@ -652,7 +673,9 @@ fn consist_trace_case(ctx: &mut Ctx, r: &mut Rng, steps: usize, nmax: usize) {
                     ctx.op("C01", "consist_totals", &tok_consist(&post), &format!("ok {} {}", f(post.get_energy_fuel().value), f(post.get_net_energy_res().value)));
                 }
                 c = post;
+                LocoTrait::step(&mut c);
                 trace.push((req, dt));
+                if c.loco_vec.iter().any(soc_outside_window) { ctx.count("pt.consist.trace_stopped_soc_outside_window"); break; }
             }
             Some(Err(_)) => { ctx.count("pt.consist.step_err"); }
             None => {
